@@ -34,15 +34,15 @@ MANIFEST = {
 }
 
 
-def _cond_tol(obj, direction, mid, x):
-    """1e-9*max(1,|x|) + 16 * (change of the returning map across the two float neighbours of the intermediate point)."""
+def _cond_tol(obj, direction, mid, x, base=1e-9):
+    """base*max(1,|x|) + 16 * (change of the returning map across the two float neighbours of the intermediate point)."""
     back = obj.inverse if direction == "fwd" else obj.transform
     m = np.asarray(mid, dtype=float)
     lo = np.asarray(back(lv.lib()["jnp"].asarray(np.nextafter(m, -np.inf))), dtype=float)
     hi = np.asarray(back(lv.lib()["jnp"].asarray(np.nextafter(m, np.inf))), dtype=float)
     d = np.abs(hi - lo)
     d = np.where(np.isfinite(d), d, 0.0)
-    return 1e-9 * np.maximum(1.0, np.abs(x)) + 16 * d
+    return base * np.maximum(1.0, np.abs(x)) + 16 * d
 
 
 def roundtrip_errors(spec, obj, direction, x):
@@ -92,7 +92,9 @@ def roundtrip_errors(spec, obj, direction, x):
     if k in ("tri", "planar"):
         tol = 1e-7 * np.maximum(1.0, np.max(np.abs(x)))
     else:
-        tol = _cond_tol(obj, direction, mid, x)
+        # the elementwise transcendental / affine leaves round-trip to rounding level (a few ulp x conditioning, which the second term
+        # measures): base 1e-12 instead of 1e-9 for them (seeded change C01g was off by exp(-y) ~ 2e-9 at y ~ 20, i.e. 5e5 ulp)
+        tol = _cond_tol(obj, direction, mid, x, base=1e-12 if k in ("exp", "softplus", "tanh", "leaky", "affine", "loc", "scale") else 1e-9)
     bad = ~(np.abs(back - x) <= tol)
     if np.any(bad):
         i = int(np.argmax(bad.ravel()))
